@@ -114,9 +114,11 @@ func (c *Cache) addArchetype(arch *archetype) {
 		if rf, ok := e.Filter.(*RelationFilter); ok {
 			if rf.Target == arch.RelationTarget {
 				e.Archetypes.Add(arch)
-				// Not required: can't add after removing,
-				// as the target entity is dead.
-				// if e.Indices != nil { e.Indices[arch] = int(e.Archetypes.Len() - 1) }
+				// Required: the index map may already exist, built on the removal
+				// of another archetype that matched this filter's mask.
+				if e.Indices != nil {
+					e.Indices[arch] = int(e.Archetypes.Len() - 1)
+				}
 			}
 			continue
 		}
